@@ -31,11 +31,15 @@ theorem store_earliest_min (s : Store) (hs : SInv s) :
     (s.earliest = none → s.timerKeys = []) ∧
     ∀ k, s.earliest = some k → k ∈ s.timerKeys ∧ ∀ k' ∈ s.timerKeys, leTs k k' := earliest_spec s hs
 
-/-- the registry refines the timer-set specification for every history: for every cache size, every key-group range,
+/-- FULL STATEMENT (false of the code, see `preepoch_counterexample`, finding D51): the same without the `0 ≤ t` part
+of `ROp.valid`, i.e. for timers at any timestamp an `int64` of nanoseconds can hold.
+PROVED (`_partial`): with `ROp.valid`, whose excluding hypothesis is exactly `0 ≤ t` (timers not before 1970; `t < 2^63`
+is the range of `UnixNano`), and subject keys of the store's own key groups,
+the registry refines the timer-set specification for every history: for every cache size, every key-group range,
 every sequence of registrations (repeated or not), watermark advances from any runners and heap peeks, each advance
 fires exactly the timers the specification fires (each once: `Perm` of duplicate-free lists), in non-decreasing timestamp
 order; afterwards the stored timers are exactly the specification's pending set -/
-theorem registry_refines_spec (kgc start stop maxCache : Nat) (ids : List String) (hss : start ≤ stop)
+theorem registry_refines_spec_partial (kgc start stop maxCache : Nat) (ids : List String) (hss : start ≤ stop)
     (hstop : stop ≤ 65536) (ops : List ROp) (hv : ∀ op ∈ ops, op.valid kgc start stop) :
     OutputsAgree ((Registry.new (Store.new [] kgc start stop maxCache) ids).run ops).2 ((Spec.new ids).run ops).2 ∧
     Rel ((Registry.new (Store.new [] kgc start stop maxCache) ids).run ops).1 ((Spec.new ids).run ops).1 := by
@@ -68,11 +72,12 @@ theorem set_idempotent (r : Registry) (sp : Spec) (kgc start stop : Nat) (h : Re
   rw [(spec_fires_exactly_once sp key t "" 0).1] at this
   exact this
 
-/-- recovery: a registry rebuilt with fresh caches of any size over the DB content at a checkpoint (C08: restore gives the
+/-- (`_partial`: same exclusion as `registry_refines_spec_partial`, timers not before 1970 — D51.)
+recovery: a registry rebuilt with fresh caches of any size over the DB content at a checkpoint (C08: restore gives the
 DB at the Checkpoint call) has exactly the timers pending at the checkpoint — a pending timer is still pending, a timer
 that fired before the checkpoint (it is deleted from the DB before it is handed out) is not — and from there on it
 refines the specification again -/
-theorem restore_pending (kgc start stop maxCache maxCache' : Nat) (ids ids' : List String) (hss : start ≤ stop)
+theorem restore_pending_partial (kgc start stop maxCache maxCache' : Nat) (ids ids' : List String) (hss : start ≤ stop)
     (hstop : stop ≤ 65536) (before after : List ROp)
     (hv1 : ∀ op ∈ before, op.valid kgc start stop) (hv2 : ∀ op ∈ after, op.valid kgc start stop) :
     let atCkpt := ((Registry.new (Store.new [] kgc start stop maxCache) ids).run before).1
@@ -89,6 +94,59 @@ theorem restore_pending (kgc start stop maxCache maxCache' : Nat) (ids ids' : Li
   have h2 := run_refines after restored specRestored kgc start stop hr
     (shape_new _ kgc start stop maxCache' hss) hv2
   exact ⟨hr, h2.2.2, h2.1⟩
+
+/-- (`_partial`: timers not before 1970 — D51.) recovery into a different key-group range (rescale): a registry rebuilt
+with fresh caches of any size over the DB content at a checkpoint, for any sub-range `[start', stop')` of the old range,
+has exactly the pending timers whose key group lies in the new range, and refines the specification from there on -/
+theorem restore_pending_subrange_partial (kgc start stop start' stop' maxCache maxCache' : Nat) (ids ids' : List String)
+    (hk0 : 0 < kgc) (hk1 : kgc ≤ 65536) (hss : start ≤ stop) (hstop : stop ≤ 65536)
+    (hs1 : start ≤ start') (hs2 : start' ≤ stop') (hs3 : stop' ≤ stop) (before after : List ROp)
+    (hv1 : ∀ op ∈ before, op.valid kgc start stop) (hv2 : ∀ op ∈ after, op.valid kgc start' stop') :
+    let atCkpt := ((Registry.new (Store.new [] kgc start stop maxCache) ids).run before).1
+    let specCkpt := ((Spec.new ids).run before).1
+    let restored := Registry.new (Store.new atCkpt.store.db kgc start' stop' maxCache') ids'
+    let specRestored : Spec :=
+      ⟨specCkpt.pending.filter (fun p => decide (start' ≤ KeySpace.keyGroup kgc p.1) && decide (KeySpace.keyGroup kgc p.1 < stop')),
+       Wm.Ups.init ids', Wm.zeroTime⟩
+    Rel restored specRestored ∧
+    OutputsAgree (restored.run after).2 (specRestored.run after).2 ∧
+    Rel (restored.run after).1 (specRestored.run after).1 := by
+  intro atCkpt specCkpt restored specRestored
+  have h1 := run_refines before _ _ kgc start stop (rel_init kgc start stop maxCache ids hss hstop)
+    (shape_new [] kgc start stop maxCache hss) hv1
+  have hr : Rel restored specRestored :=
+    restore_rel_subrange atCkpt specCkpt kgc start stop start' stop' h1.1 h1.2.1 hk0 hk1 hstop hs1 hs2 hs3 maxCache' ids'
+  have h2 := run_refines after restored specRestored kgc start' stop' hr
+    (shape_new _ kgc start' stop' maxCache' hs2) hv2
+  exact ⟨hr, h2.2.2, h2.1⟩
+
+/-! ### D51: timers before 1970 (open finding)
+
+`encodeTimerKey` stores `uint64(t.UnixNano())` big-endian and every order in the timer store is the byte order of the
+keys, so a timer with a negative `UnixNano` sorts after all timers from 1970 on. -/
+
+/-- a timer 5 ns before the epoch, one in the year 2100, then the watermark advances to 10 s -/
+def preEpochOps : List ROp :=
+  [.set [0x6b] (-5), .set [0x6b] 4102444800000000000, .adv "sr0" 10000000000, .adv "sr0" 4102444800000000001]
+
+/-- the code (model) fires nothing at 10 s although the timer at −5 ns is due, and when the watermark passes the year
+2100 it fires 2100 first and −5 ns after it; the specification fires −5 ns at 10 s. So `registry_refines_spec` without
+`0 ≤ t` is false: the outputs of the third action differ. -/
+theorem preepoch_counterexample :
+    ((Registry.new (Store.new [] 1 0 1 1048576) ["sr0"]).run preEpochOps).2 =
+      [[], [], [], [([0x6b], 4102444800000000000), ([0x6b], -5)]] ∧
+    ((Spec.new ["sr0"]).run preEpochOps).2.map (·.map (·.2)) = [[], [], [-5], [4102444800000000000]] ∧
+    ¬ OutputsAgree ((Registry.new (Store.new [] 1 0 1 1048576) ["sr0"]).run preEpochOps).2
+        ((Spec.new ["sr0"]).run preEpochOps).2 := by
+  have h1 : ((Registry.new (Store.new [] 1 0 1 1048576) ["sr0"]).run preEpochOps).2 =
+      [[], [], [], [([0x6b], 4102444800000000000), ([0x6b], -5)]] := by decide
+  have h2 : ((Spec.new ["sr0"]).run preEpochOps).2 =
+      [[], [], [([0x6b], -5)], [([0x6b], 4102444800000000000)]] := by decide
+  refine ⟨h1, by rw [h2]; rfl, ?_⟩
+  rw [h1, h2]
+  intro h
+  have := h.2.2.1.1.length_eq
+  simp at this
 
 /-! non-vacuity and the D11 regression witness (2-entry cache: put 1, 2, 5; fire 1; put 9; the rest must fire as 2, 5, 9) -/
 
